@@ -162,6 +162,60 @@ static std::vector<sc::Mesh> mesh_family(bool th, long& from_bfs) {
     return fam;
 }
 
+
+// ------------------------------------------------------------------------------------------------ histories through the real entry point
+// A living cell: forces are evaluated by cell::apply_internal_forces (what the solver calls every iteration) after the nodes have moved and the mesh has been split / collapsed /
+// compacted since the previous evaluation.  Every sequence over the alphabet below up to the stated depth that ends in an evaluation is run on a fresh real cell; the resulting
+// force field is compared with p*dV/dx - sum_f gamma_eff(f)*dA_f/dx computed from the CURRENT triangle list and node positions only.
+enum HOp { H_FORCES = 0, H_SCALE, H_PULL, H_SHRINK, H_SPLIT, H_MERGE, H_REBASE, N_HOPS };
+static const char* hop_name[] = {"apply_internal_forces", "stretch(1.15,1,0.9)", "pull_one_node", "shrink(0.85)", "split_longest_edge", "merge_shortest_edge", "rebase"};
+static cell_type_param_ptr history_type(int pset) {
+    auto ty = type_for(pset == 0 ? TENSION_AND_ELASTICITY : ALL_TOGETHER); ty->bulk_modulus_ = 2.5; ty->max_pressure_ = 1e30; return ty;
+}
+struct HistStat { long evaluations = 0, with_free_face_slots = 0, with_live_face_beyond_live_count = 0, after_displacement = 0, dead = 0; };
+static std::string run_history(const sc::Mesh& seed, const std::vector<int>& h, int pset, HistStat* st = nullptr) {
+    char buf[500]; auto ty = history_type(pset); cell_ptr c = sc::make_cell(seed, 0, ty, true); for (unsigned i = 0; i < c->face_lst_.size(); i++) c->face_lst_[i].type_id_ = i % 3;
+    c->target_volume_ = 1.1 * c->compute_volume(); local_mesh_refiner lmr(1e-3, 1e3, true); std::string err; bool moved = false;
+    auto live_centroid = [&]() { V3 s; size_t n = 0; for (const node& nd : c->node_lst_) if (nd.is_used_) { s = s + tov(nd.pos_); n++; } return s * (1.0L / n); };
+    for (size_t step = 0; step < h.size() && err.empty(); step++) { const int op = h[step];
+        switch (op) {
+            case H_SCALE: case H_SHRINK: { V3 o = live_centroid(); double sx = op == H_SCALE ? 1.15 : 0.85, sy = op == H_SCALE ? 1.0 : 0.85, sz = op == H_SCALE ? 0.9 : 0.85;
+                for (node& nd : c->node_lst_) if (nd.is_used_) nd.pos_ = vec3((double)o.x + sx * (nd.pos_.dx() - (double)o.x), (double)o.y + sy * (nd.pos_.dy() - (double)o.y), (double)o.z + sz * (nd.pos_.dz() - (double)o.z)); moved = true; break; }
+            case H_PULL: { V3 o = live_centroid(); node* far = nullptr; for (node& nd : c->node_lst_) if (nd.is_used_ && (!far || nd.pos_.dx() > far->pos_.dx())) far = &nd; far->pos_ = vec3(far->pos_.dx() + 0.3 * (far->pos_.dx() - (double)o.x), far->pos_.dy() + 0.1, far->pos_.dz()); moved = true; break; }
+            case H_SPLIT: case H_MERGE: { std::optional<edge> pick; double best = op == H_SPLIT ? -1 : 1e300;
+                for (const edge& e : c->get_edge_set()) { double l2 = (c->node_lst_[e.n1()].pos_ - c->node_lst_[e.n2()].pos_).squared_norm(); if (op == H_SPLIT ? l2 > best : l2 < best) { if (op == H_MERGE) { edge ec = e; bool can = false; try { can = lmr.can_be_merged(ec, c); } catch (...) {} if (!can) continue; } best = l2; pick = e; } }
+                if (!pick) { sc::release(c); if (st) st->dead++; return "dead"; } edge e = *pick; edge_set es = c->get_edge_set();
+                try { if (op == H_SPLIT) lmr.split_edge(e, c, es); else lmr.merge_edge(e, c, es); } catch (...) { sc::release(c); if (st) st->dead++; return "dead"; }
+                sc::OracleOpts oo; oo.check_cached_geometry = false; oo.flat_is_error = false; if (!sc::oracle_mesh(*c, oo).empty()) { sc::release(c); if (st) st->dead++; return "dead"; }   // an invalid mesh is C01's business
+                break; }
+            case H_REBASE: try { c->rebase(); } catch (...) { sc::release(c); if (st) st->dead++; return "dead"; } break;
+            case H_FORCES: { for (node& nd : c->node_lst_) nd.force_.reset(); c->apply_internal_forces(0.0);
+                if (step + 1 != h.size()) { moved = false; break; }          // prefixes are judged as their own histories
+                const size_t N = c->node_lst_.size(); V3 ctr = live_centroid(); long double diam = 0; for (const node& nd : c->node_lst_) if (nd.is_used_) diam = std::max(diam, 2 * norm(tov(nd.pos_) - ctr));
+                size_t nlive_faces = 0, last_live = 0; for (size_t i = 0; i < c->face_lst_.size(); i++) if (c->face_lst_[i].is_used_) { nlive_faces++; last_live = i; }
+                if (st) { st->evaluations++; if (nlive_faces < c->face_lst_.size()) st->with_free_face_slots++; if (last_live >= nlive_faces) st->with_live_face_beyond_live_count++; if (moved) st->after_displacement++; }
+                // degenerate (needle) triangles have no area gradient: outside the statement
+                long double A = 0, mn = 1e300L; for (const face& f : c->face_lst_) if (f.is_used_) { V3 p0 = tov(c->node_lst_[f.n1_id_].pos_), p1 = tov(c->node_lst_[f.n2_id_].pos_), p2 = tov(c->node_lst_[f.n3_id_].pos_); long double a = 0.5L * norm(cross(p1 - p0, p2 - p0)); A += a; mn = std::min(mn, a); }
+                if (mn < 1e-3L * A / nlive_faces) { sc::release(c); if (st) st->dead++; return "dead"; }
+                V3 net, torque; long double sumabs = 0; for (unsigned i = 0; i < N; i++) if (c->node_lst_[i].is_used_) { V3 f = tov(c->node_lst_[i].force_); net = net + f; torque = torque + cross(tov(c->node_lst_[i].pos_) - ctr, f); sumabs += norm(f); if (!std::isfinite((double)norm(f))) err = "non-finite-force"; }
+                if (err.empty() && sumabs > 0 && norm(net) > 1e-9L * sumabs) { snprintf(buf, sizeof buf, "net-force-not-zero: |sum F| = %.3Lg of sum|F| = %.3Lg", norm(net), sumabs); err = buf; }
+                if (err.empty() && sumabs > 0 && norm(torque) > 1e-9L * sumabs * diam) { snprintf(buf, sizeof buf, "net-torque-not-zero: |sum r x F| = %.3Lg of sum|F|*diam = %.3Lg", norm(torque), sumabs * diam); err = buf; }
+                if (err.empty() && pset == 0) {
+                    const long double p = c->pressure_, A0 = c->target_area_, ka = ty->area_elasticity_modulus_, mem = (ka / A0) * (A / A0 - 1.0L); std::vector<V3> ref(N); long double scale = fabsl(p) * diam * diam;
+                    for (const face& f : c->face_lst_) { if (!f.is_used_) continue; unsigned id[3] = {f.n1_id_, f.n2_id_, f.n3_id_}; V3 q[3]; for (int k = 0; k < 3; k++) q[k] = tov(c->node_lst_[id[k]].pos_) - ctr;
+                        V3 nn = cross(q[1] - q[0], q[2] - q[0]); long double a2 = norm(nn); V3 n = nn * (1 / a2); long double gamma = ty->face_types_[f.type_id_].surface_tension_ + mem;
+                        for (int k = 0; k < 3; k++) { V3 dV = cross(q[(k + 1) % 3], q[(k + 2) % 3]) * (1.0L / 6); V3 dA = cross(n, q[(k + 2) % 3] - q[(k + 1) % 3]) * 0.5L; ref[id[k]] = ref[id[k]] + dV * p - dA * gamma; scale = std::max(scale, norm(dA * gamma)); } }
+                    for (unsigned i = 0; i < N && err.empty(); i++) if (c->node_lst_[i].is_used_) { V3 f = tov(c->node_lst_[i].force_); if (norm(f - ref[i]) > 1e-9L * (scale + 1e-300L)) {
+                        snprintf(buf, sizeof buf, "force-of-a-living-cell-is-not-p-dV-minus-gamma-dA-of-the-current-mesh: node %u force (%.9Lg,%.9Lg,%.9Lg) expected (%.9Lg,%.9Lg,%.9Lg) [pressure %.6Lg, current area %.9Lg, area cached by the cell %.9g]", i, f.x, f.y, f.z, ref[i].x, ref[i].y, ref[i].z, p, A, c->area_); err = buf; } }
+                }
+                break; }
+        }
+    }
+    sc::release(c); return err;
+}
+static std::string htext(const std::vector<int>& h) { std::string s; for (int v : h) s += char('0' + v); return s; }
+static std::string hjson(const std::vector<int>& h) { std::string s = "["; for (size_t i = 0; i < h.size(); i++) s += std::string(i ? "," : "") + "\"" + hop_name[h[i]] + "\""; return s + "]"; }
+
 static std::string mtext(const sc::Mesh& m) { return sc::mesh_to_text(m); }
 
 static void explore(Result& R) {
@@ -187,16 +241,29 @@ static void explore(Result& R) {
         }
         if (mi % 40 == 0) R.sample("{\"mesh\":\"" + fam[mi].name + "\",\"node_slots\":" + std::to_string(fam[mi].nv()) + ",\"triangles\":" + std::to_string(fam[mi].nf()) + "}");
     }
+    // histories on a living cell, every sequence up to the depth that ends in an evaluation
+    { HistStat st; long hist = 0; const int depth = th ? 5 : 4; std::vector<sc::Mesh> seeds = {sc::octahedron(), sc::cube12(), sc::icosphere(1)};
+      for (size_t si = 0; si < seeds.size(); si++) for (int pset = 0; pset < 2; pset++) { std::vector<int> h; std::function<void()> rec = [&]() {
+            if (!h.empty() && h.back() == H_FORCES) { hist++; evals++; cases++; std::string e = run_history(seeds[si], h, pset, &st); if (e == "dead") return;
+                if (!e.empty()) R.violation(clause_of(e) + "|history|" + hop_name[h.size() >= 2 ? h[h.size() - 2] : 0], "seed " + seeds[si].name + ", parameter set " + std::to_string(pset) + ", history " + hjson(h) + ": " + e, "mode=history\npset=" + std::to_string(pset) + "\nhist=" + htext(h) + "\nmesh=" + mtext(seeds[si]) + "\n");
+                if (hist % 700 == 1) R.sample("{\"seed\":\"" + seeds[si].name + "\",\"parameter_set\":" + std::to_string(pset) + ",\"history\":" + hjson(h) + "}"); }
+            if ((int)h.size() >= depth || R.out_of_time(0.95)) return;
+            for (int op = 0; op < N_HOPS; op++) { if (!h.empty() && h.back() == H_REBASE && op == H_REBASE) continue; h.push_back(op); rec(); h.pop_back(); } };
+          rec(); }
+      if (R.out_of_time(0.95)) R.cap("deadline in the history block");
+      R["history_evaluations"] = st.evaluations; R["history_evaluations_with_free_face_slots"] = st.with_free_face_slots; R["history_evaluations_with_a_live_face_stored_beyond_the_live_count"] = st.with_live_face_beyond_live_count; R["history_evaluations_after_a_displacement"] = st.after_displacement; R["histories_ended_by_refusal_or_degenerate_mesh"] = st.dead;
+      if (R.violations.empty() && (!st.with_live_face_beyond_live_count || !st.after_displacement)) R.internal_error = "history block vacuous"; }
     R["evaluations"] = evals; R["transitions"] = evals; R["states"] = cases; R["distinct_nontrivial"] = cases; R["traces_validated_against_impl"] = evals; R["meshes"] = fam.size(); R["meshes_from_remeshing_bfs"] = from_bfs; R["bfs_meshes_skipped_for_zero_area_triangles"] = skipped_degenerate; R["equivariance_checks_skipped_hinge_exactly_at_135_degree_cutoff"] = g_skipped_at_threshold;
     R.reals["worst_net_force_ratio"] = wn[0]; R["cases_with_identically_zero_force"] = (long)wn[1];
     for (int ti = 0; ti < NTERMS; ti++) { R.tables["cases_with_nonzero_force_per_term"][term_name[ti]] = nonzero_per_term[ti]; if (!nonzero_per_term[ti] && R.exhaustive) R.internal_error = std::string("term never produced a force (vacuous): ") + term_name[ti]; }
-    R.strings["rule"] = "a case = (mesh, rotation, translation, scale, force term); the real force routine is run on a freshly initialised cell and node::force() compared with closed-form references (volume gradient cross-checked by finite differences, area gradients), net force/torque, and the same term on the rigidly moved mesh; the mesh family contains every distinct mesh reached by a depth-2 BFS over split/merge/swap from octahedron and cube";
+    R.strings["rule"] = "a case = (mesh, rotation, translation, scale, force term); the real force routine is run on a freshly initialised cell and node::force() compared with closed-form references (volume gradient cross-checked by finite differences, area gradients), net force/torque, and the same term on the rigidly moved mesh; the mesh family contains every distinct mesh reached by a depth-2 BFS over split/merge/swap from octahedron and cube; history block: every sequence over {apply_internal_forces, stretch, pull a node, shrink, split longest edge, merge shortest edge, rebase} up to the depth that ends in an evaluation, on 3 seeds x 2 parameter sets, through cell::apply_internal_forces on the living cell (stale caches, free slots)";
     R.assumptions = {"tolerances: net force 1e-9*sum|F|, torque 1e-9*sum|F|*diameter, per-node forces 1e-9 of the largest contribution, equivariance 1e-8", "bending and angle regularisation: only net force, net torque and equivariance (their energies are not stated by the property)", "zero-area triangles are skipped as the code does by design", "the bending law is discontinuous at the 135 degree hinge cut-off by design: equivariance is not demanded of meshes with a hinge within 1e-6 rad of the cut-off (counted)", "effective tension of a face = face-type tension + (k_a/A_t)(A/A_t-1) with A_t the cell's own target area"};
 }
 
 static int replay(const Replay& rp, Result& R) {
     sc::Mesh m = sc::mesh_from_text(rp.get("mesh")); Term t = (Term)rp.geti("term"); std::string e1, e2;
-    if (rp.get("mode") == "term") { e1 = check_term(m, t); e2 = check_term(m, t); }
+    if (rp.get("mode") == "history") { std::vector<int> h; for (char ch : rp.get("hist")) h.push_back(ch - '0'); e1 = run_history(m, h, (int)rp.geti("pset")); e2 = run_history(m, h, (int)rp.geti("pset")); printf("history %s\n", hjson(h).c_str()); }
+    else if (rp.get("mode") == "term") { e1 = check_term(m, t); e2 = check_term(m, t); }
     else { auto rots = sc::cube_rotations(); std::vector<std::array<double, 9>> RR = {sc::ID3, rots[9], sc::rot_z_345(), sc::matmul(sc::rot_x_51213(), sc::rot_z_345())}; for (int i : {3, 14, 17, 22}) RR.push_back(rots[i]); double size = rp.getd("size"); std::array<double, 3> tr = {0.25 * size, -8 * size, 8 * size}; e1 = check_equivariance(m, t, RR[rp.geti("rot")], tr); e2 = check_equivariance(m, t, RR[rp.geti("rot")], tr); }
     if (e1 != e2) { printf("replay diverged\n"); return 0; } printf("term %s: %s\n", term_name[t], e1.c_str());
     if (!e1.empty()) { R.violation(clause_of(e1), e1, ""); return 1; } return 0;
